@@ -361,12 +361,114 @@ def _big(ctx: Ctx, item):
         ctx.report(b, w, c)
 
 
+def run_two_links(first: bytes, second: bytes, cut_first=None, send_first=False):
+    """The stream `first` arrives (optionally cut), the adapter disappears (end of stream), the client reconnects and `second` arrives on
+    the new link in one read per 7 bytes. send_first: the application sends a heading message before anything arrives.
+    -> (outcome, session)"""
+    s = aio.Session("waveshare", connect_plan=[("accept",), ("accept",), ("accept",)])
+
+    async def main(s):
+        c = s.make_client()
+        await c.connect()
+        await asyncio.sleep(0.05)
+        if send_first:
+            from nmea2000.message import NMEA2000Field, NMEA2000Message
+            m = NMEA2000Message(PGN=127250, id="vesselHeading", source=1, destination=255, priority=2, fields=[
+                NMEA2000Field(id="sid", value=7, raw_value=7), NMEA2000Field(id="heading", value=1.0, raw_value=1.0),
+                NMEA2000Field(id="deviation", value=0.0, raw_value=0.0), NMEA2000Field(id="variation", value=0.0, raw_value=0.0),
+                NMEA2000Field(id="reference", value="Magnetic", raw_value=1), NMEA2000Field(id="reserved_58", value=63, raw_value=63)])
+            await c.send(m)
+            await asyncio.sleep(0.05)
+            s.sent = s.gw.link.bytes_written()[-20:]
+        link = s.gw.link
+        for piece in ([first[:cut_first], first[cut_first:]] if cut_first else [first]):
+            if piece:
+                link.feed(piece)
+                await asyncio.sleep(0.01)
+        if second is not None:
+            link.eof()
+            for _ in range(4000):
+                if s.gw.link is not link and c.state.name == "CONNECTED":
+                    break
+                await asyncio.sleep(0.05)
+            await asyncio.sleep(0.2)
+            for i in range(0, len(second), 7):
+                s.gw.link.feed(second[i:i + 7])
+                await asyncio.sleep(0.01)
+        await asyncio.sleep(1.0)
+        s.final_state = c.state.name
+        await c.close()
+    outcome = s.run(main, max_steps=2_000_000)
+    return outcome, s
+
+
+def _links(ctx: Ctx, item=None):
+    """(a) a read ends inside a packet, the adapter disappears, the client reconnects, the new stream starts with a little marker-free
+    noise: every valid packet of the new link is delivered.  (b) the application sends a message and later receives byte-identical
+    packets (another node sends the same values): they are delivered like any other."""
+    n = 0
+    for partial in (0, 1, 2, 7, 19):
+        for noise_len in (0, 1, 5, 13, 19, 20, 33):
+            first = valid_packet(0) + valid_packet(1)[:partial]
+            nz = bytes((i * 37 + 11) % 251 for i in range(noise_len)).replace(b"\xaa", b"\xab")
+            second = nz + valid_packet(2) + valid_packet(3) + valid_packet(4)
+            outcome, s = run_two_links(first, second, cut_first=20 if partial else None)
+            ctx.count()
+            ctx.nontrivial_extra += 1
+            n += 1
+            got = [next((f.raw_value for f in m.fields if f.id == "sid"), None) for _, m in s.received]
+            case = {"two_links": [partial, noise_len]}
+            if outcome != "ok":
+                ctx.report(f"C20|reconnect|{outcome}", f"session ended with {outcome}", case)
+            elif got != [0, 2, 3, 4]:
+                ctx.report("C20|reconnect|packet-lost", f"read ended {partial} bytes into a packet, reconnection, {noise_len} marker-free noise bytes, three valid packets: "
+                           f"delivered SIDs {got}, expected [0, 2, 3, 4]", case)
+    # (b) own transmission seen again on the receive side
+    outcome, s = run_two_links(b"", None, send_first=True)
+    sent = getattr(s, "sent", b"")
+    outcome2, s2 = None, None
+    if len(sent) == 20:
+        stream = valid_packet(0) + sent + valid_packet(1) + sent
+        outcome2, s2 = _send_then_receive(stream)
+        ctx.count()
+        ctx.nontrivial_extra += 1
+        got = [next((f.raw_value for f in m.fields if f.id == "sid"), None) for _, m in s2.received]
+        if outcome2 != "ok" or got != [0, 7, 1, 7]:
+            ctx.report("C20|own-packet-received|packet-lost", f"the application sent a heading message and the same 20 bytes arrive twice in a clean stream: delivered SIDs {got}, "
+                       f"expected [0, 7, 1, 7]", {"two_links": "echo"})
+    ctx.klass("reconnect_scenarios", n)
+
+
+def _send_then_receive(stream):
+    s = aio.Session("waveshare")
+
+    async def main(s):
+        from nmea2000.message import NMEA2000Field, NMEA2000Message
+        c = s.make_client()
+        await c.connect()
+        await asyncio.sleep(0.05)
+        m = NMEA2000Message(PGN=127250, id="vesselHeading", source=1, destination=255, priority=2, fields=[
+            NMEA2000Field(id="sid", value=7, raw_value=7), NMEA2000Field(id="heading", value=1.0, raw_value=1.0),
+            NMEA2000Field(id="deviation", value=0.0, raw_value=0.0), NMEA2000Field(id="variation", value=0.0, raw_value=0.0),
+            NMEA2000Field(id="reference", value="Magnetic", raw_value=1), NMEA2000Field(id="reserved_58", value=63, raw_value=63)])
+        await c.send(m)
+        await asyncio.sleep(0.05)
+        for i in range(0, len(stream), 20):
+            s.gw.link.feed(stream[i:i + 20])
+            await asyncio.sleep(0.01)
+        await asyncio.sleep(1.0)
+        s.final_state = c.state.name
+        await c.close()
+    return s.run(main), s
+
+
 def _dual(ctx: Ctx, item):
     from .. import clientopts as co
     co.dual_pass(ctx, "C20", item[0])
 
 
 def run(ctx: Ctx):
+    pmap(ctx, _links, [None])
     pmap(ctx, _dual, [("waveshare",)])
     n = 40 if ctx.quick else 6000
     pmap(ctx, _work, [(n, 5000)] * 16)
@@ -379,6 +481,11 @@ def run(ctx: Ctx):
 
 
 def replay(ctx: Ctx, case):
+    if "two_links" in case:
+        sub = Ctx(ctx.pid)
+        sub.known_open = {}
+        _links(sub)
+        return [(b, v["what"], v["case"]) for b, v in sub.found.items() if v["case"]["two_links"] == case["two_links"]]
     if case.get("dual"):
         from .. import clientopts as co
         return co.dual_replay("C20", "C20", case)
